@@ -96,6 +96,8 @@ def write_transform(rng, work, sim_ok, ext):
     R = gen.rot_of_class(rng, ["uniform", "axis_aligned", "quarter_turns", "small"][rng.integers(4)])
     t = rng.normal(size=3) * ext * 10.0**rng.uniform(-1, 1)
     s = 10.0**rng.uniform(-0.5, 0.5) if (sim_ok and rng.random() < .5) else 1.0
+    if sim_ok and s != 1.0 and rng.random() < .3:
+        s = 1.0 + (1 if rng.random() < .5 else -1) * 10.0**rng.uniform(-8, -3)
     M = np.eye(4)
     M[:3, :3] = s * R
     M[:3, 3] = t
